@@ -1,0 +1,61 @@
+//go:build verif
+
+// Verification hooks (build tag verif) for property C09: decode the STORED statistics (pre-aggregation) of a chunk meta
+// the way the readers do (PreAggBuilder.unmarshal) and hand them out together with the per-segment time ranges, so that
+// an external harness can compare what is stored with the rows decoded from the very same segments. Thin accessors, no
+// behaviour of their own.
+package immutable
+
+import (
+	"github.com/openGemini/openGemini/lib/util/lifted/vm/protoparser/influx"
+)
+
+// VerifC09Stat is one column's chunk-level statistics as decoded from ColumnMeta.preAgg.
+type VerifC09Stat struct {
+	Name      string
+	Type      int
+	IsTime    bool
+	Count     int64
+	HasMinMax bool        // integer, float, boolean columns
+	Min, Max  interface{} // int64, float64 or bool
+	MinT      int64
+	MaxT      int64
+	HasSum    bool        // integer, float columns
+	Sum       interface{} // int64 or float64
+}
+
+// VerifC09Stats returns the decoded statistics of every column of cm (time column last) and the time range of every
+// segment.
+func VerifC09Stats(cm *ChunkMeta) ([]VerifC09Stat, [][2]int64, error) {
+	var ranges [][2]int64
+	for i := range cm.timeRange {
+		ranges = append(ranges, [2]int64{cm.timeRange[i].minTime(), cm.timeRange[i].maxTime()})
+	}
+	var out []VerifC09Stat
+	for k := range cm.colMeta {
+		col := &cm.colMeta[k]
+		st := VerifC09Stat{Name: col.name, Type: int(col.ty), IsTime: col.IsTime()}
+		var b PreAggBuilder
+		if col.IsTime() {
+			b = acquireTimePreAggBuilder()
+		} else {
+			b = acquireColumnBuilder(int(col.ty))
+		}
+		b.reset()
+		if _, err := b.unmarshal(col.preAgg); err != nil {
+			return nil, nil, err
+		}
+		st.Count = b.count()
+		if !col.IsTime() && int(col.ty) != influx.Field_Type_String {
+			st.HasMinMax = true
+			st.Min, st.MinT = b.min()
+			st.Max, st.MaxT = b.max()
+			if int(col.ty) != influx.Field_Type_Boolean {
+				st.HasSum = true
+				st.Sum = b.sum()
+			}
+		}
+		out = append(out, st)
+	}
+	return out, ranges, nil
+}
